@@ -605,6 +605,8 @@ def _make_mask(kind: str, shape, g):
         return torch.zeros(n_, 1, h_, w_, 1, dtype=torch.bool)
     if kind == "full":
         return torch.ones(n_, 1, h_, w_, 1, dtype=torch.bool)
+    if kind == "percoil":                   # a different pattern for every coil (and sample)
+        return torch.rand(n_, c_, h_, w_, 1, generator=g) < 0.5
     if kind == "columns":
         cols = torch.rand(w_, generator=g) < 0.4
         cols[w_ // 2] = True
@@ -914,6 +916,72 @@ def _cg_batch_case(prm: dict):
     return fails, info
 
 
+_SHIPPED_BUDGETS = [(10, 1e-6), (10, 1e-7), (15, 1e-7), (12, 1e-8)]   # ConjGrad default, ConjGradNetConfig, ConjGradNet default, base_conjgradnet.yaml
+
+
+def _cg_budget_case(prm: dict):
+    """ill-conditioned systems (un-normalised maps with log-normal magnitudes, small lambda) under the iteration budgets
+    the code and the configurations ship.  "To solver tolerance" cannot mean the dense solution here (the budget is far
+    below the dimension); what the block must still deliver pass by pass is conjugate-gradient behaviour:
+      * the error in the energy norm ||x_k - x*||_B strictly decreases with every further pass, until the loop's own
+        tolerance test holds for the returned iterate (the only legitimate reason to stop early),
+      * never worse than the start (energy norm and objective)."""
+    from direct.nn.conjgradnet.conjgrad import CGUpdateType, ConjGrad
+
+    n_, c_, h_, w_ = prm["shape"]
+    g = torch.Generator().manual_seed(prm["seed"])
+    fop, bop = _ops(prm["centered"], True)
+    S = torch.randn(n_, c_, h_, w_, 2, generator=g) * torch.exp(prm["sens_sigma"] * torch.randn(n_, c_, h_, w_, 1, generator=g))
+    y = torch.randn(n_, c_, h_, w_, 2, generator=g)
+    z = torch.randn(n_, h_, w_, 2, generator=g)
+    m = _make_mask(prm["mask"], (n_, c_, h_, w_), g)
+    lam64 = float(prm["lam"])
+    lam = torch.tensor([lam64])
+    upd = CGUpdateType(prm["update"])
+    iters, tol = prm["iters"], prm["tol"]
+    npx = h_ * w_
+    As = _dense_A(fop, S, m, (n_, c_, h_, w_))
+    yc = torch.view_as_complex(y.contiguous()).reshape(n_, -1).to(torch.complex128)
+    zc = torch.view_as_complex(z.contiguous()).reshape(n_, -1).to(torch.complex128)
+    Bs = [A.conj().T @ A + lam64 * torch.eye(npx, dtype=torch.complex128) for A in As]
+    bs = [A.conj().T @ yc[i] + lam64 * zc[i] for i, A in enumerate(As)]
+    sols = [torch.linalg.solve(B, b) for B, b in zip(Bs, bs)]
+    cond = max(float(ev[-1] / ev[0]) for ev in (torch.linalg.eigvalsh(B) for B in Bs))
+
+    def cplx(x):
+        return torch.view_as_complex(x.contiguous()).reshape(n_, -1).to(torch.complex128)
+
+    def err_b(xc):
+        return math.sqrt(sum(max(float(torch.vdot(xc[i] - sols[i], Bs[i] @ (xc[i] - sols[i])).real), 0.0) for i in range(n_)))
+
+    def stat(xc):      # the loop's statistic on the TRUE residual
+        return sum(math.sqrt(float((bs[i] - Bs[i] @ xc[i]).abs().pow(2).sum())) for i in range(n_)) / (2 * n_)
+
+    fails, errs = [], []
+    e0 = err_b(zc)
+    errs.append(e0)
+    xk = zc
+    for k in range(1, iters + 1):
+        with torch.no_grad():
+            xk = cplx(ConjGrad(fop, bop, num_iters=k, tol=tol, bk_update_type=upd)(y, S, m, z, lam))
+        ek = err_b(xk)
+        errs.append(ek)
+        stopped_legitimately = stat(xk) < tol * (1 + 1e-3)
+        if not ek <= errs[-2] + 1e-4 * e0:
+            fails.append((f"cg-energy-error-increase-{prm['update']}", f"||x_k - x*||_B increases from {errs[-2]:.6g} (num_iters = {k - 1}) to "
+                                                                        f"{ek:.6g} (num_iters = {k}); cond(B) = {cond:.3g}"))
+            break
+        if errs[-2] > 1e-3 * e0 and not ek < errs[-2] and not stopped_legitimately:
+            fails.append((f"cg-stalls-before-tolerance-{prm['update']}",
+                          f"num_iters = {k} returns no better iterate than num_iters = {k - 1} (||x - x*||_B = {ek:.6g}, start {e0:.6g}) although "
+                          f"the residual statistic {stat(xk):.3g} of the returned x is not below tol = {tol:g}: the loop is left for "
+                          f"another reason than its tolerance test; cond(B) = {cond:.3g}, lambda = {lam64}"))
+            break
+    rel = math.sqrt(sum(float((xk[i] - sols[i]).abs().pow(2).sum()) for i in range(n_))) / \
+        (math.sqrt(sum(float(s_.abs().pow(2).sum()) for s_ in sols)) + 1e-12)
+    return fails, {"cond": cond, "energy_error_ratio_at_budget": errs[-1] / (e0 + 1e-300), "rel_to_dense_at_budget": rel}
+
+
 def _three_d_notes():
     """what the two blocks do with 3-D (slice/time) inputs — recorded, and checked where the block accepts them"""
     from direct.nn.conjgradnet.conjgrad import ConjGrad
@@ -967,7 +1035,7 @@ def oracle(ctx: Ctx, deep: bool = False):
         h_, w_ = rng.choice(sizes)
         prm = {"op": "loglik", "shape": [rng.choice([1, 1, 2, 3]), rng.choice([1, 2, 3, 4]), h_, w_],
                "seed": rng.randrange(2 ** 31), "centered": rng.random() < 0.5, "normalized": rng.random() < 0.75,
-               "mask": rng.choice(["empty", "full", "random", "random", "columns"]),
+               "mask": rng.choice(["empty", "full", "random", "random", "columns", "percoil"]),
                "scaling": rng.choice([None, None, 0.5, 3.0, 0.01, "per-sample"]), "sens_scale": rng.choice([1.0, 1.0, 0.2, 5.0]),
                "premask": rng.random() < 0.5}
         if prm["scaling"] == "per-sample":
@@ -989,7 +1057,7 @@ def oracle(ctx: Ctx, deep: bool = False):
         h_, w_ = rng.choice(cg_sizes)
         lam = round(math.exp(rng.uniform(math.log(0.05), math.log(10.0))), 4)
         prm = {"op": "cg", "shape": [rng.choice([1, 1, 2]), rng.choice([1, 2, 3]), h_, w_], "seed": rng.randrange(2 ** 31),
-               "centered": rng.random() < 0.5, "mask": rng.choice(["empty", "full", "random", "random", "columns"]),
+               "centered": rng.random() < 0.5, "mask": rng.choice(["empty", "full", "random", "random", "columns", "percoil"]),
                "lam": min(max(lam, 0.05), 10.0), "update": "FR" if i % 2 == 0 else "PRP",
                "sens_scale": rng.choice([1.0, 1.0, 0.3, 2.0]), "normalized": rng.random() < 0.8}
         try:
@@ -1003,6 +1071,29 @@ def oracle(ctx: Ctx, deep: bool = False):
                          f"lam={'<0.5' if prm['lam'] < 0.5 else '<3' if prm['lam'] < 3 else '>=3'}")
         for key, what in fails:
             yield Violation(key, what, {**prm, "observed": info})
+
+    # ---- ill-conditioned systems under the shipped iteration budgets
+    worst_rel, worst_cond = 0.0, 0.0
+    for i in range(100 if big else 12):
+        h_, w_ = rng.choice([(4, 4), (6, 6), (5, 7), (8, 8), (12, 12)] if big else [(4, 4), (6, 6), (5, 7), (8, 8)])
+        iters, tol = rng.choice(_SHIPPED_BUDGETS)
+        prm = {"op": "cgbudget", "shape": [rng.choice([1, 1, 2]), rng.choice([2, 4]), h_, w_], "seed": rng.randrange(2 ** 31),
+               "centered": rng.random() < 0.5, "mask": rng.choice(["random", "columns", "columns", "percoil"]),
+               "lam": rng.choice([0.05, 0.05, 0.1, 0.5]), "update": "FR" if i % 2 == 0 else "PRP",
+               "sens_sigma": rng.choice([1.0, 1.5, 2.0]), "iters": iters, "tol": tol}
+        try:
+            fails, info = _cg_budget_case(prm)
+        except Exception as e:  # noqa: BLE001
+            fails, info = [("cg-raises", f"ConjGrad raises {err_name(e)} on a well-formed ill-conditioned problem: {e}"[:300])], {}
+        worst_rel, worst_cond = max(worst_rel, info.get("rel_to_dense_at_budget", 0.0)), max(worst_cond, info.get("cond", 0.0))
+        ctx.count(("cgbud", tuple(prm["shape"]), prm["seed"]), True, sample={"op": "oracle/cgbudget", **prm, **info},
+                  bucket=f"oracle/cgbudget/{prm['update']}/iters={iters}/cond=1e{int(math.log10(max(info.get('cond', 1.0), 1.0)))}")
+        for key, what in fails:
+            yield Violation(key, what, {**prm, "observed": info})
+    ctx.notes.append({"observation": f"ill-conditioned normal equations (log-normal map magnitudes, lambda 0.05-0.5, cond(B) up to {worst_cond:.2g}) under the "
+                                     f"shipped budgets num_iters 10-15: the returned iterate is up to {worst_rel:.2g} (relative, 2-norm) away from the dense "
+                                     "solution — the budget, not the tolerance, ends the loop; the energy-norm error decreased strictly at every pass "
+                                     "in all cases (the property's 'to solver tolerance' is met only in the sense of `cg_exit_guarantee`)"})
 
     # ---- ConjGrad on a batch: one common pass count (batch-mean stopping rule), per sample never worse
     n_b = 120 if big else 16
@@ -1119,6 +1210,8 @@ def replay(rep: dict) -> bool:
             return bool(_loglik_case(prm)[0])
         if rep.get("op") == "cg":
             return bool(_cg_case(prm)[0])
+        if rep.get("op") == "cgbudget":
+            return bool(_cg_budget_case(prm)[0])
         if rep.get("op") == "cgbatch":
             return bool(_cg_batch_case(prm)[0])
         if rep.get("op") == "site":
